@@ -102,6 +102,28 @@ def find_container(src, masked, header, lo=0, hi=None):
     return hits[0]
 
 
+def list_fns(path, container):
+    """names of the fn items directly inside a container (impl/mod/trait), in order"""
+    src, masked = read_repo(path)
+    lo, hi = 0, len(masked)
+    if container:
+        for part in container.split(" >> "):
+            lo, hi = find_container(src, masked, part, lo, hi)
+    tests = _test_mod_spans(masked)
+    names = []
+    depth = 0
+    k = lo
+    for m in re.finditer(r"[{}]|\bfn\s+(\w+)\b\s*[<(]", masked[lo:hi]):
+        tok = m.group(0)
+        if tok == "{":
+            depth += 1
+        elif tok == "}":
+            depth -= 1
+        elif depth == 0 and not any(a <= lo + m.start() <= b for a, b in tests):
+            names.append(m.group(1))
+    return names
+
+
 def find_item(path, container, item):
     """Locate an item. Returns dict(start, end, text, kind, name). `start` is the start of
     the line holding the item keyword (outer attributes / doc comments directly above are
@@ -579,6 +601,10 @@ def parse_template(tpl_text, base_dir=None, hashes=None):
                 if hashes is not None:
                     hashes.append((os.path.basename(inc), hashlib.sha256(inc_text.encode()).hexdigest()[:16]))
                 parts.extend(parse_template(inc_text, os.path.dirname(inc), hashes))
+            elif word == "rest":
+                parts.append(("text", "\n".join(buf)))
+                buf = []
+                parts.append(("rest", parse_attrs(rest)))
             elif word == "unit":
                 parts.append(("unit", parse_attrs(rest)))
             elif word == "lemma":
@@ -887,7 +913,24 @@ def render(tpl_path, with_canaries=True):
             meta.update(val)
         elif kind == "lemma":
             meta.setdefault("lemmas", []).append(dict(fn=val["fn"], props=[p for p in val.get("props", "").split(",") if p]))
+        elif kind == "rest":
+            # every OTHER fn of the container, verbatim and without a contract: a helper method that a change introduces is
+            # then present (callers learn nothing about it, so their proofs fail instead of the unit failing to compile)
+            for nm in list_fns(val["file"], val.get("in")):
+                if nm in [x for x in val.get("except", "").split(",") if x]:
+                    continue
+                blk = Block("extract", dict(file=val["file"], item="fn " + nm, props=val.get("props", ""), **({"in": val["in"]} if val.get("in") else {})), 0)
+                text, canary, rec = process_block(blk, records)
+                rec["rest"] = True
+                s, e = emit(text)
+                rec["gen_lines"] = [s, e]
+                records.append(rec)
         else:
+            if val.attrs.get("optional"):
+                try:
+                    find_item(val.attrs.get("file"), val.attrs.get("in"), val.attrs.get("item"))
+                except AnchorLost:
+                    continue
             text, canary, rec = process_block(val, records)
             # indentation of the directive is not tracked; Verus does not care
             s, e = emit(text)
